@@ -151,6 +151,8 @@ func Small() []Doc {
 		{"vtt-full", "vtt", []byte(vttFull), true},
 		{"vtt-crlf", "vtt", []byte(crlf(vttFull)), true},
 		{"vtt-cr", "vtt", []byte(cr(vttFull)), true},
+		{"vtt-bom-crlf", "vtt", []byte("\xef\xbb\xbf" + crlf("WEBVTT\n\n1\n00:01.000 --> 00:02.000\nfirst\n\n2\n00:03.000 --> 00:04.000\nsecond\n")), true},
+		{"ssa-bom", "ssa", []byte("\xef\xbb\xbf" + ssaSmall), true},
 		{"vtt-min", "vtt", []byte("WEBVTT\n\n00:01.000 --> 00:02.000\nx"), true},
 		{"vtt-unknown-region", "vtt", []byte("WEBVTT\n\n00:01.000 --> 00:02.000 region:nope\nx\n"), false},
 		{"ssa-small", "ssa", []byte(ssaSmall), true},
